@@ -544,6 +544,114 @@ def recogniseToks (toks : List Token) : Option Bool :=
   | .no => some false
   | .rest r => some r.isEmpty
 
+/-! ## Completion of a prefix (C18: "the text before the reported token is the beginning of a valid document")
+
+`complete g ts` runs the productions on a token list that may END inside `g`: it answers `done r` (matched, `r` left),
+`no`, or `more c` — the input ran out inside `g` and the tokens `c` finish it.  `shortest g` is a shortest sentence of
+`g`.  `completeDoc prefix` is therefore a CANDIDATE witness that `prefix` is viable: `prefix ++ c` should be a document.
+`complete` is not proved correct (that it finds a completion of every viable prefix is the open half of C18's syntax
+clause); instead `certifiedCompletion` re-runs the recogniser on `prefix ++ c`, and the recogniser IS proved sound
+(`recognise_sound`), so a `some` answer proves viability of that prefix (`certified_completion_viable`).  The C03 harness
+demands a certified completion for every rejected case and additionally that the real parser accepts the text before
+the reported token followed by the completion. -/
+
+/-- a representative token of a kind (offsets irrelevant) -/
+def sampleTok (k : TokenKind) : Token :=
+  ⟨k, 0, 0, match k with
+    | .name => "a" | .int => "1" | .float => "1.5" | .string => "s" | .blockString => "b" | _ => ""⟩
+
+/-- a shortest sentence of `g` (`none`: out of fuel) -/
+def shortest : Nat → G → Option (List Token)
+  | 0, _ => none
+  | n + 1, g =>
+    match g with
+    | .tok k => some [sampleTok k]
+    | .kw s => some [⟨.name, 0, 0, s⟩]
+    | .nameBut _ => some [sampleTok .name]
+    | .eps => some []
+    | .seq a b => match shortest n a, shortest n b with
+      | some x, some y => some (x ++ y)
+      | _, _ => none
+    | .alt a b => match shortest n a, shortest n b with
+      | some x, some y => some (if y.length < x.length then y else x)
+      | some x, none => some x
+      | none, y => y
+    | .opt _ => some []
+    | .star _ => some []
+    | .optIf _ _ => some []
+    | .starIf _ _ => some []
+    | .nt x => shortest n (rule x)
+
+inductive CR
+  | fuel
+  | no
+  | done (rest : List Token)
+  | more (completion : List Token)
+
+def shortestFuel : Nat := 64
+
+/-- the productions on a possibly truncated input -/
+def complete : Nat → G → List Token → CR
+  | 0, _, _ => .fuel
+  | n + 1, g, ts =>
+    match g with
+    | .tok k => match ts with
+      | t :: r => if t.kind = k then .done r else .no
+      | [] => .more [sampleTok k]
+    | .kw s => match ts with
+      | t :: r => if t.kind = .name ∧ t.value = s then .done r else .no
+      | [] => .more [⟨.name, 0, 0, s⟩]
+    | .nameBut ex => match ts with
+      | t :: r => if t.kind = .name ∧ ¬ t.value ∈ ex then .done r else .no
+      | [] => .more [sampleTok .name]
+    | .eps => .done ts
+    | .seq a b => match complete n a ts with
+      | .done r => complete n b r
+      | .more c => match shortest shortestFuel b with
+        | some y => .more (c ++ y)
+        | none => .fuel
+      | x => x
+    | .alt a b => match complete n a ts with
+      | .no => complete n b ts
+      | x => x
+    | .opt a => match ts with
+      | [] => .done []
+      | _ => match complete n a ts with
+        | .no => .done ts
+        | x => x
+    | .star a => match ts with
+      | [] => .done []
+      | _ => match complete n a ts with
+        | .no => .done ts
+        | .done r => if r.length < ts.length then complete n (.star a) r else .done r
+        | x => x
+    | .optIf c a => match ts with
+      | [] => .done []
+      | _ => if c.holds ts then complete n a ts else .done ts
+    | .starIf c a => match ts with
+      | [] => .done []
+      | _ =>
+        if c.holds ts then
+          match complete n a ts with
+          | .done r => if r.length < ts.length then complete n (.starIf c a) r else .done r
+          | x => x
+        else .done ts
+    | .nt x => complete n (rule x) ts
+
+/-- tokens that turn `pre` into a document (`none`: `pre` is not viable, or out of fuel) -/
+def completeDoc (pre : List Token) : Option (List Token) :=
+  match complete (recogniseFuel pre) (.nt .document) pre with
+  | .done [] => some []
+  | .more c => some c
+  | _ => none
+
+/-- the completion, kept only when S as a program accepts `pre ++ completion`: a CERTIFICATE that `pre` is the beginning of
+a document (`Props/C18Syntax.lean: certified_completion_viable`), whatever `complete` did to find it -/
+def certifiedCompletion (pre : List Token) : Option (List Token) :=
+  match completeDoc pre with
+  | some c => if recogniseToks (pre ++ c) = some true then some c else none
+  | none => none
+
 /-- on the complete token list (ending in EOF); anything after the first EOF token is ignored, as the parser does -/
 def recognise (all : List Token) : Option Bool :=
   recogniseToks (all.takeWhile (fun t => t.kind ≠ .eof))
